@@ -89,6 +89,10 @@ impl<A: DecoderArithmetic> Decoder<A> {
         for (x, &y) in self.input_llrs.iter_mut().zip(llrs.iter()) {
             *x = self.arithmetic.input_llr_quantize(y)
         }
+        // Before the first iteration the output LLRs are the input LLRs. This
+        // prevents returning the output of the previous codeword if no
+        // iterations are run.
+        self.output_llrs.copy_from_slice(&self.input_llrs);
 
         // First variable messages use only input LLRs
         for (v, &llr) in self.input_llrs.iter().enumerate() {
